@@ -110,7 +110,11 @@ class StubGSSAuth:
         return None
 
     def ssh_check_mic(self, mic_token, session_id, username=None):
-        return None
+        # round 4: verifies like StubKexCtx (before, any MIC was accepted and the MIC never decided anything)
+        import hmac
+
+        if not hmac.compare_digest(bytes(mic_token), stub_mic(session_id, username)):
+            raise ValueError("stub GSS context: MIC verification failed")
 
 
 def install_gss_stub():
@@ -206,13 +210,17 @@ def make_cell_pk(rng, sid, user, kname, base_alg, form, forgery, label, quick=Tr
         blob, alg = key.asbytes(), base_alg
     svc = "ssh-connection"
 
+    # round 4: label "as:<other RSA algorithm>" — the blob is labelled with, and (where it is a real signature)
+    # hashed for, another algorithm than the request names
+    hash_alg = label[3:] if label.startswith("as:") else base_alg
+
     def sigbytes(k, data):
-        r = Rd(sign(k, data, base_alg))
+        r = Rd(sign(k, data, hash_alg))
         r.string()
         return r.string()
 
     good = session_blob(sid, user, svc, alg, blob)
-    lab = base_alg if label == "base" else base_alg + CERT
+    lab = hash_alg if label.startswith("as:") else (base_alg if label == "base" else base_alg + CERT)
     if forgery == "valid":
         sb = sigbytes(key, good)
     elif forgery == "other_key":
@@ -378,7 +386,7 @@ ODD_FLOWS = {
     "check_auth_interactive": ("check_auth_interactive", [("kbd_start",), ("info_response",)]),
     "check_auth_interactive_response": ("kbd_final", [("kbd_start",), ("info_response",)]),
     "check_auth_gssapi_keyex": ("check_auth_gssapi_keyex", [("gss_keyex", "valid")]),
-    "check_auth_gssapi_with_mic": ("check_auth_gssapi_with_mic", [("gss_mic_start",), ("gss_token",), ("gss_mic",)]),
+    "check_auth_gssapi_with_mic": ("check_auth_gssapi_with_mic", [("gss_mic_start",), ("gss_token",), ("gss_mic", "valid")]),
 }
 IQ_ALLOWED = ("check_auth_interactive", "check_auth_interactive_response")
 
@@ -483,19 +491,23 @@ def step_body(rng, sess, user, st):
     if kind == "info_response":
         n = rng.choice([0, 1, 1, 1, 2])
         return MSG_USERAUTH_INFO_RESPONSE, u32(n) + b"".join(sstr("answer%d" % i) for i in range(n))
-    if kind == "gss_keyex":
+    if kind in ("gss_keyex", "gss_mic"):
         mk = st[1] if len(st) > 1 else rng.choice(["valid", "valid"] + MIC_KINDS)
         sid = sess.att.att.session_id
         mic = dict(valid=lambda: stub_mic(sid, user), garbage=lambda: rng.randbytes(rng.choice([1, 16, 32, 33])),
                    empty=lambda: b"", other_user=lambda: stub_mic(sid, user + "2"),
                    other_session=lambda: stub_mic(rng.choice(_OLD_SIDS[:-1]) if len(_OLD_SIDS) > 1 else rng.randbytes(len(sid)), user))[mk]()
+        if kind == "gss_mic":
+            return MSG_USERAUTH_GSSAPI_MIC, sstr(mic)
         return MSG_USERAUTH_REQUEST, sstr(user) + sstr(svc) + sstr("gssapi-keyex") + sstr(mic)
     if kind == "gss_mic_start":
         return MSG_USERAUTH_REQUEST, sstr(user) + sstr(svc) + sstr("gssapi-with-mic") + u32(1) + sstr(KRB5_OID)
     if kind == "gss_token":
+        if len(st) > 1 and st[1] == "empty":
+            # an empty token: outside a GSS exchange the same bytes read as an INFO_RESPONSE with zero answers, so a
+            # server that (rightly) never entered the exchange survives it and goes on to read the MIC message
+            return MSG_USERAUTH_INFO_RESPONSE, sstr(b"")
         return MSG_USERAUTH_INFO_RESPONSE, sstr(rng.randbytes(16))  # 61 = GSSAPI_TOKEN during a GSS exchange
-    if kind == "gss_mic":
-        return MSG_USERAUTH_GSSAPI_MIC, sstr(rng.randbytes(16))
     if kind == "unknown_method":
         return MSG_USERAUTH_REQUEST, sstr(user) + sstr(svc) + sstr(rng.choice(["hostbased", "publickey2", "", "PASSWORD"]))
     if kind == "garbage_request":
@@ -519,8 +531,24 @@ def step_body(rng, sess, user, st):
 # ---------------------------------------------------------------------------
 # the oracle
 
-def judge_episode(ctx, ep, sid):
-    """Returns (approved: bool, info: dict) for one victim episode."""
+def _strip_cert(name):
+    return name[:-len(CERT)] if name.endswith(CERT.encode()) else name
+
+
+def _sig_label(sigfield):
+    """Algorithm name inside a signature field (strict reading, else what is there)."""
+    for mode in (False, "clamp"):
+        try:
+            return Rd(sigfield, lenient=mode).string()
+        except Short:
+            continue
+    return None
+
+
+def judge_episode(ctx, ep, sid, gss_enabled=True, mic_user=None):
+    """Returns (approved: bool, info: dict) for one victim episode.  gss_enabled: what the application answers to
+    enable_auth_gssapi() (a fact about the application, whether or not paramiko asked); mic_user: the user name a
+    gssapi-with-mic MIC has to be bound to (the request that opened the exchange / the pinned name)."""
     m = ep["msg"]
     t = m["type"]
     cbs = ep["cbs"]
@@ -575,11 +603,35 @@ def judge_episode(ctx, ep, sid):
                     if verify_sig(blob, sigfield, data):
                         sigok = True
                         ctx.count("independent_sig_valid")
+                        # round 4: the signature must be one *for the algorithm the request names*: its own label
+                        # has to name that algorithm (certificate suffix on either side disregarded).  A blob that
+                        # verifies under the hash of another algorithm's label is not a signature of this request.
+                        lab = _sig_label(sigfield)
+                        info["label_matches"] = lab is not None and _strip_cert(lab) == _strip_cert(alg)
+                        if not info["label_matches"]:
+                            ctx.count("independent_sig_valid_only_under_a_mismatching_label")
                         break
                 except Short:
                     continue
+            info["sig_crypto_valid"] = sigok
+            sigok = sigok and info.get("label_matches", False)
             info["sig_valid"] = sigok
             return ok_own and sigok, info
+        if method in (b"gssapi-keyex", b"gssapi-with-mic") and not gss_enabled:
+            # round 4: the application has GSS-API authentication disabled.  Whatever its check_auth_gssapi_*
+            # callbacks would say is not an approval of this request; paramiko's documented answer is the one for
+            # "none" (check_auth_none), and only that can justify a grant.
+            info["gss_disabled"] = True
+            if own_any:
+                info["gss_callback_evaluated_while_disabled"] = True
+                ctx.count("gss_callback_evaluated_although_application_disabled_gssapi")
+            fb = cb("check_auth_none", user)
+            if any(is_success(c["result"]) for c in fb):
+                info["cbstate"] = "approved via check_auth_none"
+                ctx.count("approved_via_none_fallback")
+                return True, info
+            info["cbstate"] = "GSS-API disabled by the application and check_auth_none did not return AUTH_SUCCESSFUL"
+            return False, info
         if method == b"gssapi-keyex" and own:
             # the GSS path was taken (its callback ran): the grant also needs a MIC valid for this session and user
             micok = False
@@ -616,6 +668,28 @@ def judge_episode(ctx, ep, sid):
         info["cbstate"] = ("approved" if ok else
                            ("%s evaluated but did not return AUTH_SUCCESSFUL" % good[0]["name"] if good
                             else "no callback for the method evaluated"))
+        if t == MSG_USERAUTH_GSSAPI_MIC:
+            # round 4: a gssapi-with-mic grant needs GSS-API enabled by the application and a MIC valid for this
+            # session and the user of the exchange (recomputed independently of the stub)
+            micok = False
+            try:
+                mic = Rd(m["payload"], 1).string()
+                ctx.count("gss_with_mic_checks_independent")
+                micok = mic_user is not None and mic == stub_mic(sid, mic_user)
+            except Short:
+                pass
+            info["mic_valid"] = micok
+            if micok:
+                ctx.count("gss_with_mic_valid")
+            if not gss_enabled:
+                info["gss_disabled"] = True
+                if good:
+                    info["gss_callback_evaluated_while_disabled"] = True
+                    ctx.count("gss_callback_evaluated_although_application_disabled_gssapi")
+                info["cbstate"] = "GSS-API disabled by the application"
+                return False, info
+            if ok and not micok:
+                return False, info
         odd = [c for c in good if not is_const(c["result"])
                and not (isinstance(c["result"], InteractiveQuery) and c["name"] in IQ_ALLOWED)]
         if odd and not ok:
@@ -623,6 +697,43 @@ def judge_episode(ctx, ep, sid):
             info["odd_callback"] = odd[0]["name"]
         return ok, info
     return False, dict(kind="message type %d" % t, method="-", cbstate="not an authentication request")
+
+
+MISMATCH_KINDS = ["garbage", "other_key", "replay_session", "valid"]
+MISMATCH_NAME = {"garbage": "garbage", "other_key": "other_key", "replay_session": "replay_session",
+                 "valid": "valid_under_label_hash"}
+MISMATCH_CLASS = {"garbage": "garbage signature", "other_key": "signature made by another key",
+                  "replay_session": "signature made for another session id",
+                  "valid": "signature valid under the label's hash"}
+RSA_ALGS = ["ssh-rsa", "rsa-sha2-256", "rsa-sha2-512"]
+
+
+def note_gss_cell(ctx, desc, label, m, sid, mic_user, granted):
+    """{GSS-API enabled, disabled} x {gssapi-with-mic, gssapi-keyex} x {valid, invalid MIC}: counted when the victim
+    read the message that carries the MIC and the independent MIC computation agrees with the cell."""
+    enabled = bool(_resolve(desc["policy"].get("enable_auth_gssapi", False)))
+    method = "keyex" if label[0] == "gss_keyex" else "with_mic"
+    try:
+        if label[0] == "gss_keyex":
+            rq = parse_userauth_request(m["payload"])
+            if rq is None or rq["method"] != b"gssapi-keyex":
+                return
+            mic = Rd(rq["rd"].d, rq["rd"].p).string()
+            user = rq["user"].decode("utf-8", "replace")
+        else:
+            if m["type"] != MSG_USERAUTH_GSSAPI_MIC:
+                return
+            mic = Rd(m["payload"], 1).string()
+            user = mic_user
+    except Short:
+        return
+    really_valid = user is not None and mic == stub_mic(sid, user)
+    if really_valid != (label[1] == "valid"):
+        ctx.inconclusive("harness: gss cell MIC kind %s but independent validity is %s" % (label[1], really_valid))
+        return
+    cell = "gsscell_%s_%s_%s_mic" % ("enabled" if enabled else "disabled", method, "valid" if really_valid else "invalid")
+    ctx.count(cell)
+    ctx.count(cell + ("_granted" if granted else "_refused"))
 
 
 ODD_CELLS = set()  # (callback, value name, via) seen by this shard
@@ -655,6 +766,19 @@ def note_cell(ctx, label, info, granted):
         ctx.count("pkcell_request_read_but_key_not_approved")
         return
     valid = bool(info.get("sig_valid"))
+    if lab.startswith("as:"):
+        # round 4: the signature blob is labelled with another RSA algorithm than the request names
+        if valid or info.get("label_matches"):
+            ctx.inconclusive("harness: a signature labelled %s counts as valid for a %s request" % (lab[3:], base_alg))
+        elif forgery == "valid" and not info.get("sig_crypto_valid"):
+            ctx.inconclusive("harness: the signature meant to be valid under the hash of %s is not" % lab[3:])
+        elif forgery != "valid" and info.get("sig_crypto_valid"):
+            ctx.inconclusive("harness: the %s forgery labelled %s verifies" % (forgery, lab[3:]))
+        else:
+            ctx.count("pkcell_rsa_%s_labelmismatch_%s" % (form, MISMATCH_NAME[forgery]))
+            ctx.count("pklabel_request_%s_labelled_%s" % (base_alg, lab[3:]))
+            ctx.count("pkcell_labelmismatch_" + ("GRANTED" if granted else "refused"))
+        return
     if forgery == "valid":
         if not valid:
             ctx.inconclusive("harness: the genuine %s signature for %s does not verify independently" % (form, base_alg))
@@ -680,6 +804,8 @@ def analyse(ctx, sess, desc, labels, auth_samples, name_samples=()):
     grant_ns = []  # episodes that sent USERAUTH_SUCCESS (each judged on its own above)
     n_requests = 0
     opener_user = None  # username of the request that opened the running interactive / gssapi-with-mic exchange
+    last_req_user = None
+    gss_enabled = bool(_resolve(desc["policy"].get("enable_auth_gssapi", False)))
     for ep in eps:
         m = ep["msg"]
         if m["type"] in (MSG_USERAUTH_REQUEST, MSG_USERAUTH_INFO_RESPONSE, MSG_USERAUTH_GSSAPI_MIC):
@@ -687,6 +813,8 @@ def analyse(ctx, sess, desc, labels, auth_samples, name_samples=()):
             ctx.count("victim_auth_messages_read")
         if m["type"] == MSG_USERAUTH_REQUEST:
             rq0 = parse_userauth_request(m["payload"])
+            if rq0 is not None:
+                last_req_user = rq0["user"].decode("utf-8", "replace")
             if rq0 is not None and rq0["method"] in (b"keyboard-interactive", b"gssapi-with-mic") \
                     and any(o["type"] == 60 for o in ep["out"]):
                 opener_user = rq0["user"].decode("utf-8", "replace")
@@ -697,11 +825,13 @@ def analyse(ctx, sess, desc, labels, auth_samples, name_samples=()):
         needs = bool(grants)
         if not needs and m["type"] not in (MSG_USERAUTH_REQUEST, MSG_USERAUTH_INFO_RESPONSE, MSG_USERAUTH_GSSAPI_MIC):
             continue
-        ok, info = judge_episode(ctx, ep, sid)
+        ok, info = judge_episode(ctx, ep, sid, gss_enabled=gss_enabled, mic_user=opener_user or last_req_user)
         note_odd_results(ctx, ep, bool(grants))
         lab0 = labels.get(m["seq"])
         if lab0 and lab0[0] == "pkc" and info.get("kind") == "request" and info.get("method") == "publickey":
             note_cell(ctx, lab0, info, bool(grants))
+        if desc.get("kind") == "gss-cell" and lab0 and lab0[0] in ("gss_keyex", "gss_mic") and len(lab0) > 1:
+            note_gss_cell(ctx, desc, lab0, m, sid, mic_user=opener_user or last_req_user, granted=bool(grants))
         if ok:
             approved_upto.append(m["n"])
             ctx.count("approved_episodes")
@@ -745,14 +875,29 @@ def analyse(ctx, sess, desc, labels, auth_samples, name_samples=()):
         if info.get("kind") != "request" and not info["kind"].startswith("continuation"):
             ctx.violation("USERAUTH_SUCCESS sent in reply to %s" % info["kind"],
                           "a grant was sent although the message read was no authentication request", wit)
+        elif info.get("gss_disabled"):
+            ctx.violation("GSS-API grant although the application has GSS-API authentication disabled (%s%s)"
+                          % (info.get("method"), ", check_auth_gssapi callback evaluated"
+                             if info.get("gss_callback_evaluated_while_disabled") else ""),
+                          "enable_auth_gssapi() answers False and check_auth_none did not approve the user, yet a "
+                          "%s message produced USERAUTH_SUCCESS" % info.get("method"), wit)
+        elif info.get("method") == "gssapi-with-mic(mic)" and info["cbstate"] == "approved" and info.get("mic_valid") is False:
+            ctx.violation("gssapi-with-mic granted without a valid MIC for this session and user",
+                          "the MIC does not verify for this session id and user, yet the application's approval alone "
+                          "produced USERAUTH_SUCCESS", wit)
         elif info.get("method") == "gssapi-keyex" and info["cbstate"] == "approved" and info.get("mic_valid") is False:
             ctx.violation("gssapi-keyex granted without a valid MIC for this session and user",
                           "the GSS context rejected (or never saw a valid) MIC, yet the application's approval alone "
                           "produced USERAUTH_SUCCESS", wit)
         elif info.get("method") == "publickey" and info["cbstate"] == "approved":
-            if label and label[0] == "pkc":
+            if label and label[0] == "pkc" and label[5].startswith("as:"):
+                cls = "label names another algorithm than the request, " + MISMATCH_CLASS.get(label[4], "?") + \
+                    (" [certificate algorithm]" if label[3] == "cert" else "")
+            elif label and label[0] == "pkc":
                 cls = CELL_CLASS.get(label[4], "signature does not verify") + \
                     (" [certificate algorithm]" if label[3] == "cert" else "")
+            elif info.get("sig_crypto_valid") and info.get("label_matches") is False:
+                cls = "label names another algorithm than the request, signature valid under the label's hash"
             else:
                 cls = "no signature attached" if info.get("sig_attached") is False else \
                     ATTACK_CLASS.get(label[3] if label and label[0] == "pk" else "", "signature does not verify")
@@ -901,7 +1046,7 @@ def run(ctx):
             plan.append(dict(kind="gss-keyex-disabled", focus=dict(check_auth_gssapi_keyex=ans, enable_auth_gssapi=False,
                                                                   kex_ctx="ok"), first=[("gss_keyex",)]))
             plan.append(dict(kind="gss-mic-focus", focus=dict(check_auth_gssapi_with_mic=ans, enable_auth_gssapi=True),
-                             first=[("gss_mic_start",), ("gss_token",), ("gss_mic",)]))
+                             first=[("gss_mic_start",), ("gss_token",), ("gss_mic", "valid")]))
     for rep in range(ctx.pick(12, 40)):
         plan.append(dict(kind="kbd-exchange-approved",
                          focus=dict(check_auth_interactive="Q", kbd_rounds=rep % 3, kbd_final=S),
@@ -931,6 +1076,35 @@ def run(ctx):
                     plan.append(dict(kind="pk-cell", key=(kname, alg), focus=dict(refuse_rest), first=steps,
                                      no_tail=True, exact=True, shard_key=ci))
                     ci += 1
+    # round 4 (b): RSA, the signature blob labelled with ANOTHER RSA algorithm than the request's (all ordered
+    # pairs, plain and certificate form); bytes garbage / by another key / replayed / valid under the label's hash
+    for rep in range(cell_reps):
+        for req_alg in RSA_ALGS:
+            for lab_alg in RSA_ALGS:
+                if lab_alg == req_alg:
+                    continue
+                for form in ("plain", "cert"):
+                    k = (ctx.seed + ci) % len(MISMATCH_KINDS)
+                    order = MISMATCH_KINDS[k:] + MISMATCH_KINDS[:k]
+                    steps = [("pkc", "rsa", req_alg, form, f, "as:" + lab_alg) for f in order]
+                    if not ctx.quick and rep > 0:
+                        steps += [("pkc", "rsa", req_alg, form, f, "as:" + lab_alg) for f in order[:2]]
+                    steps.append(("pkc", "rsa", req_alg, form, "valid", "base"))
+                    plan.append(dict(kind="pk-label-mismatch", key=("rsa", req_alg), focus=dict(refuse_rest), first=steps,
+                                     no_tail=True, exact=True, shard_key=ci))
+                    ci += 1
+    # round 4 (a): {GSS-API enabled, disabled by the application} x {gssapi-with-mic, gssapi-keyex} x MIC kinds; the
+    # application's gssapi callbacks would approve, check_auth_none refuses
+    gi = 0
+    for rep in range(cell_reps):
+        for enabled in (True, False):
+            for method in ("with_mic", "keyex"):
+                for mk in ["valid", "valid"] + MIC_KINDS:
+                    focus = dict(refuse_rest, check_auth_publickey=F, check_auth_gssapi_keyex=S, check_auth_gssapi_with_mic=S,
+                                 enable_auth_gssapi=enabled, kex_ctx="ok", kbd_rounds=0)
+                    steps = [("gss_keyex", mk)] if method == "keyex" else [("gss_mic_start",), ("gss_token", "empty"), ("gss_mic", mk)]
+                    plan.append(dict(kind="gss-cell", focus=focus, first=steps, no_tail=True, exact=True, shard_key=gi))
+                    gi += 1
     # round 3 (b): every auth callback x results outside the three constants
     oi = 0
     n_odd_cells = 0
@@ -979,7 +1153,7 @@ def run(ctx):
         if shown < 3 and p["kind"] in ("pk-focus", "kbd-rounds-focus", "random"):
             desc["sample"] = True
             shown += 1
-        if p["kind"] in ("pk-cell", "odd-result") and p.get("shard_key") == ctx.shard:
+        if p["kind"] in ("pk-cell", "odd-result", "pk-label-mismatch", "gss-cell") and p.get("shard_key") == ctx.shard:
             desc["sample"] = True  # one of each new kind per shard (Ctx keeps at most four)
         ctx.count("sessions")
         try:
@@ -1006,10 +1180,25 @@ def run(ctx):
         for form in ("plain", "cert"):
             for f in CELL_FORGERIES:
                 ctx.require("pkcell_%s_%s_%s" % (fam, form, f), per_family[fam] * cell_reps)
-            ctx.require("pkcell_%s_%s_valid_granted" % (fam, form), per_family[fam] * cell_reps)
+            ctx.require("pkcell_%s_%s_valid_granted" % (fam, form), per_family[fam] * cell_reps * (2 if fam == "rsa" else 1))
     ctx.require("pkcell_label_base", 28 * len(CELL_FORGERIES) // 2 * cell_reps)
     ctx.require("pkcell_label_cert", 28 * len(CELL_FORGERIES) // 2 * cell_reps)
     ctx.require("odd_result_cells_evaluated", n_odd_cells)
+    # round 4 floors
+    for form in ("plain", "cert"):
+        for f in MISMATCH_KINDS:
+            ctx.require("pkcell_rsa_%s_labelmismatch_%s" % (form, MISMATCH_NAME[f]), 6 * cell_reps)
+    for req_alg in RSA_ALGS:
+        for lab_alg in RSA_ALGS:
+            if lab_alg != req_alg:
+                ctx.require("pklabel_request_%s_labelled_%s" % (req_alg, lab_alg), 8 * cell_reps)
+    for enabled in ("enabled", "disabled"):
+        for method in ("with_mic", "keyex"):
+            ctx.require("gsscell_%s_%s_valid_mic" % (enabled, method), 3 * cell_reps)
+            ctx.require("gsscell_%s_%s_invalid_mic" % (enabled, method), 4 * cell_reps)
+    # positive control: with GSS-API enabled and a valid MIC the approving application's answer does grant
+    ctx.require("gsscell_enabled_with_mic_valid_mic_granted", 3 * cell_reps)
+    ctx.require("gsscell_enabled_keyex_valid_mic_granted", 3 * cell_reps)
     for cbname in ("check_auth_none", "check_auth_password", "check_auth_publickey", "check_auth_interactive",
                    "check_auth_interactive_response", "check_auth_gssapi_keyex", "check_auth_gssapi_with_mic"):
         ctx.require("odd_result_from_" + cbname, 8 * cell_reps)
